@@ -306,9 +306,15 @@ pub fn family(rng: &mut Rng, big: bool) -> (&'static str, Vec<Vec<u8>>) {
             for _ in 0..n {
                 let mut b = Vec::new();
                 be16(&mut b, id);
-                be16(&mut b, 65535);
-                if !v9 {
-                    be16(&mut b, 1);
+                if !v9 && rng.chance(1, 2) {
+                    // the other count of an options template record: few fields, huge scope count
+                    be16(&mut b, rng.range(0, 2) as u16);
+                    be16(&mut b, 65535);
+                } else {
+                    be16(&mut b, 65535);
+                    if !v9 {
+                        be16(&mut b, 1);
+                    }
                 }
                 sets.push(set(if v9 { 0 } else { 3 }, &b, 0));
             }
